@@ -57,6 +57,60 @@ fn first_diff(a: &Value, b: &Value, path: &mut Vec<String>) -> bool {
     }
 }
 
+/// Coarse class of a reference token for the lexical causes (every keyword is `keyword`).
+fn lexical_class(k: reference::Kind) -> String {
+    match k {
+        reference::Kind::Kw(_) => "keyword".into(),
+        k => reference::class_of(Some(k)),
+    }
+}
+
+/// Diagnosis of a disagreement: if the real lexer reads the text differently from the
+/// reference tokenizer at a token the reference has, the cause is lexical and this names it
+/// by token class (not by text, production or keyword): the first token, in reading order,
+/// that the real lexer gives another class or another extent.
+///   `<class>-read-as-<class>-before-<next>`   same extent, another class
+///   `<class>-absorbs-following-<c>`           the real token also takes the character(s) after it
+///   `<class>-split` / `token-start-differs`   otherwise
+pub fn lexical_cause(text: &str) -> Option<String> {
+    let mut toks = Vec::new();
+    let _ = reference::tokenize_partial(text, &mut toks);
+    let real = real::lex(text);
+    for (t, r) in toks.iter().zip(real.iter()) {
+        let (Ok(name), o, l) = (&r.0, r.1, r.2) else { return None };
+        let real_class = if name.ends_with(" keyword") { "keyword".to_string() } else { name.replace(' ', "-").replace("-literal", "") };
+        let same_kind = match t.kind {
+            reference::Kind::Kw(k) => *name == format!("`{k}` keyword"),
+            reference::Kind::Sym(s) => *name == format!("`{s}`"),
+            reference::Kind::Id => name == "identifier",
+            reference::Kind::Str => name == "string literal",
+            reference::Kind::PkgName => name == "package name",
+            reference::Kind::PkgPath => name == "package path",
+        };
+        if o == t.start && o + l == t.end && same_kind {
+            continue;
+        }
+        let class = lexical_class(t.kind);
+        let next = |at: usize| match text[at..].chars().next() {
+            None => "end-of-input".to_string(),
+            Some(c) if c.is_whitespace() => "white-space".to_string(),
+            Some(c) if c.is_ascii_lowercase() || c.is_ascii_digit() => "word-character".to_string(),
+            Some(c) => format!("`{c}`"),
+        };
+        return Some(if o != t.start {
+            "token-start-differs".to_string()
+        } else if o + l == t.end {
+            format!("{class}-read-as-{real_class}-before-{}", next(t.end))
+        } else if o + l > t.end {
+            let what = format!("{class}-absorbs-following-{}", next(t.end));
+            if real_class == class { what } else { format!("{what}-read-as-{real_class}") }
+        } else {
+            format!("{class}-split")
+        });
+    }
+    None
+}
+
 /// Runs both sides on `text` and applies the C12 oracle.
 pub fn judge(text: &str) -> Judged {
     let r = reference::parse(text);
@@ -102,10 +156,10 @@ pub fn judge(text: &str) -> Judged {
             if ast != t.json {
                 let mut path = Vec::new();
                 first_diff(&t.json, &ast, &mut path);
-                j.violation = Some((
-                    format!("C12/tree-differs/{}", path.join(".")),
-                    format!("reference tree {} but parser tree {}", t.json, ast),
-                ));
+                j.violation = Some(match lexical_cause(text) {
+                    Some(c) => (format!("C12/tree-differs/token/{c}"), format!("the lexer's reading differs ({c}); reference tree {} but parser tree {}", t.json, ast)),
+                    None => (format!("C12/tree-differs/{}", path.join(".")), format!("reference tree {} but parser tree {}", t.json, ast)),
+                });
             }
         }
         (Err(_), Err(_)) => {}
@@ -116,16 +170,25 @@ pub fn judge(text: &str) -> Judged {
                 "unexpected" => format!("unexpected-{}", reference::class_of(found)),
                 k => k.to_string(),
             };
-            j.violation = Some((
-                format!("C12/rejects-grammar/{}/{what}", reference::production_at(&t, off)),
-                format!("derivable from the EBNF but rejected: {}", e.message),
-            ));
+            j.violation = Some(match lexical_cause(text) {
+                Some(c) => (format!("C12/rejects-grammar/token/{c}"), format!("derivable from the EBNF but the lexer's reading differs ({c}) and the text is rejected: {}", e.message)),
+                None => (
+                    format!("C12/rejects-grammar/{}/{what}", reference::production_at(&t, off)),
+                    format!("derivable from the EBNF but rejected: {}", e.message),
+                ),
+            });
         }
         (Err(e), Ok(_)) => {
-            j.violation = Some((
-                format!("C12/accepts-non-grammar/{}/{}", e.production, e.what),
-                format!("not derivable (reference stops in `{}`, {} at byte {}) but accepted", e.production, e.what, e.offset),
-            ));
+            j.violation = Some(match lexical_cause(text) {
+                Some(c) => (
+                    format!("C12/accepts-non-grammar/token/{c}"),
+                    format!("not derivable (reference stops in `{}`, {} at byte {}) but accepted: the lexer's reading differs ({c})", e.production, e.what, e.offset),
+                ),
+                None => (
+                    format!("C12/accepts-non-grammar/{}/{}", e.production, e.what),
+                    format!("not derivable (reference stops in `{}`, {} at byte {}) but accepted", e.production, e.what, e.offset),
+                ),
+            });
         }
     }
     j
@@ -227,9 +290,11 @@ pub fn family(
     tight: &mut Tight,
     mut f: impl FnMut(&'static str, String),
 ) {
-    f("base", corpus::join(&b.toks));
+    let spaced = corpus::join(&b.toks);
     let pieces: Vec<&str> = b.toks.iter().map(|s| s.as_str()).collect();
-    if let Some(t) = tight.render(&pieces) {
+    let t = tight.render(&pieces, &spaced);
+    f("base", spaced);
+    if let Some(t) = t {
         f("base-tight", t);
     }
     corpus::for_each_mutant(&b.toks, subs, scope, tight, |k, t| f(k, t));
@@ -247,19 +312,25 @@ pub fn family(
     }
 }
 
-/// Which texts get the tight rendering in a tier, and the sentence of the evidence rule saying so.
-pub fn tight_scope<'a>(tier: Tier, _subs_small: &'a [String]) -> TightScope<'a> {
-    match tier {
-        Tier::Quick | Tier::Thorough => TightScope::All,
+/// Which texts of a document's family get the tight rendering: in the thorough tier all of
+/// them; in the quick tier (for time) all of them for the documents of the shallow layer (the
+/// one that gets the full substitute set), the base document alone for the deeper ones.
+pub fn tight_scope(tier: Tier, shallow_layer: bool) -> TightScope {
+    if tier == Tier::Thorough || shallow_layer {
+        TightScope::All
+    } else {
+        TightScope::BaseOnly
     }
 }
 
-pub fn tight_rule(scope: TightScope) -> String {
-    let which = match scope {
-        TightScope::All => "every base document, every single-token mutant (deletion, duplication, swap, substitution with the same substitute sets) and every subtree deletion".to_string(),
-        TightScope::Reduced(set) => format!(
-            "(this tier, for time; the thorough tier takes all mutants) every base document and every substitution mutant whose substitute is one of the reduced set of {}",
-            set.len()
+/// The sentence of the evidence rule about the tight rendering; `all_depth` = Some(d): only
+/// the documents of E(X,d) get it for their mutants (quick tier), None: every document does.
+pub fn tight_rule(all_depth: Option<usize>) -> String {
+    let which = match all_depth {
+        None => "every base document, every single-token mutant (deletion, duplication, swap, substitution, with the same substitute sets) and every subtree deletion".to_string(),
+        Some(d) => format!(
+            "every base document and, for the documents of E(X,{d}) (restricted to these in the quick tier to keep it short; the thorough tier takes the mutants of every document), \
+             every single-token mutant (deletion, duplication, swap, substitution with the full substitute set) and every subtree deletion"
         ),
     };
     format!(
@@ -307,17 +378,20 @@ pub fn run(args: &[String]) -> ! {
         }
     }
 
-    let work: Vec<(&Base, &[String])> =
-        shallow.docs.iter().map(|b| (b, &subs_full[..])).chain(deep_only.iter().map(|b| (*b, &subs_small[..]))).collect();
+    let work: Vec<(&Base, &[String], TightScope)> = shallow
+        .docs
+        .iter()
+        .map(|b| (b, &subs_full[..], tight_scope(tier, true)))
+        .chain(deep_only.iter().map(|b| (*b, &subs_small[..], tight_scope(tier, false))))
+        .collect();
     let two_gap = two_gap_set(tier, reps);
-    let scope = tight_scope(tier, &subs_small);
     let parts: Vec<Stats> = work
         .par_chunks(16)
         .map(|chunk| {
             let mut st = Stats::default();
             let mut tight = Tight::default();
-            for (b, subs) in chunk {
-                family(b, subs, two_gap.contains(&corpus::join(&b.toks)), scope, &mut tight, |kind, text| {
+            for (b, subs, scope) in chunk {
+                family(b, subs, two_gap.contains(&corpus::join(&b.toks)), *scope, &mut tight, |kind, text| {
                     let j = judge(&text);
                     st.record(kind, &text, &j);
                 });
@@ -427,7 +501,7 @@ pub fn run(args: &[String]) -> ! {
             subs_small.len(),
             corpus::SEPARATORS.len(),
             if tier == Tier::Thorough { format!(", all two-gap layout deviations of the documents of E(X,{TWO_GAP_DEPTH})") } else { String::new() },
-            tight_rule(scope)
+            tight_rule(if tier == Tier::Quick { Some(full_depth) } else { None })
         )),
     );
     cov.insert("exhaustive".into(), json!(true));
